@@ -125,12 +125,91 @@ def case(item):
     return r
 
 
+SAME_FILES = {
+    'st.do': scen.TRACE_HDR + 'echo "S $1 $$ $PPID" >&9\nredo-ifchange src\nsleep 0.05\nhead -n 1 src > "$3"\nredo-stamp < "$3"\necho "E $1 $$ 0" >&9\n',
+    'mid.do': scen.TRACE_HDR + 'echo "S $1 $$ $PPID" >&9\nredo-ifchange st\nsleep 0.05\necho "mid $(cat st)" > "$3"\necho "E $1 $$ 0" >&9\n',
+    'top.do': scen.TRACE_HDR + 'echo "S $1 $$ $PPID" >&9\nredo-ifchange mid side.leaf\nsleep 0.1\necho "top $(cat mid)" > "$3"\necho "E $1 $$ 0" >&9\n',
+    'default.leaf.do': scen.leaf_do(''),
+    'src': 'v0\nrest0\n',
+}
+
+
+def same_target_case(item):
+    """All invocations want the same targets (top -> mid -> checksummed st -> src) after a change below the checksummed one, so that
+    they meet each other's locks and the out-of-band path: none may fail, and what is there afterwards is complete and up to date."""
+    _, ninv, change, nquery, seed = item
+    rnd = random.Random(repr(item))
+    pj = scen.Project(SAME_FILES, 'c16s')
+    anoms = []
+    obs = dict(rounds=1, invocations=0, failed_invocations=0, same_target_rounds=1)
+    sets = {}
+    try:
+        r, _ = pj.run(['redo-ifchange', 'top'], verif_log=False)
+        if r.rc != 0:
+            return dict(verdict='inconclusive', why='could not initialise the project: %s' % r.err[-200:], sample=dict(item=list(item)))
+        new = {'new-checksum': 'v1\nrest1\n', 'same-checksum': 'v0\nother\n', 'none': None}[change]
+        if new:
+            common.write_file(os.path.join(pj.top, 'src'), new)
+            os.utime(os.path.join(pj.top, 'src'), ns=(int(time.time() * 1e9) + 5 * 10 ** 9,) * 2)
+        cmds = []
+        for i in range(ninv):
+            argv = rnd.choice([['redo-ifchange', 'top'], ['redo-ifchange', 'top'], ['redo', 'top'], ['redo', '-j3', 'top'], ['redo-ifchange', 'mid', 'top'], ['redo-ifchange', 'st']])
+            cmds.append(dict(argv=argv, delay=rnd.random() * 0.05))
+        for q in range(nquery):
+            cmds.append(dict(argv=[rnd.choice(['redo-ood', 'redo-targets', 'redo-sources'])], delay=rnd.random() * 0.2))
+        res = pj.run_many(cmds, timeout=90, barrier=(seed % 2 == 0))
+        obs['invocations'] = len(cmds)
+        for c, r in zip(cmds, res):
+            name = c['argv'][0]
+            if r.status == 'timeout':
+                return dict(verdict='inconclusive', why='watchdog without stuck witness', sample=dict(item=list(item)))
+            for a in scen.crash_anoms(r, '', 'c16'):
+                anoms.append(dict(key='c16-' + a['key'], what='%s: %s' % (c['argv'], a['what'])))
+            if r.status == 'exit' and r.rc != 0:
+                obs['failed_invocations'] += 1
+                text = (r.err + r.out)
+                m = ERR_RE.search(text)
+                ec = scen.classify_error(text) or ('other:' + (m.group(0).lower() if m else 'rc=%s' % r.rc))
+                anoms.append(dict(key='spurious-failure:same-targets:%s:%s' % (name if name.startswith('redo-') else 'redo', ec),
+                                  what='%s exited %s although every script succeeds (change: %s): %s' % (c['argv'], r.rc, change, text[-300:].replace('\n', ' | '))))
+            sets.setdefault('commands', set()).add(name)
+        if not anoms:
+            first = (new or SAME_FILES['src']).split('\n')[0]
+            want = {'st': first + '\n', 'mid': 'mid %s\n' % first, 'top': 'top mid %s\n' % first}
+            asked_top = any('top' in c['argv'] for c in cmds)
+            for n, b in want.items():
+                got = (common.read_file(os.path.join(pj.top, n)) or b'').decode()
+                if got != b and (asked_top or n == 'st'):
+                    anoms.append(dict(key='lost-state:same-targets:%s-not-up-to-date' % n, what='%s holds %r after all invocations exited 0, expected %r (change: %s)' % (n, got, b, change)))
+            rq, _ = pj.run(['redo-ood'], verif_log=False)
+            if asked_top and rq.rc == 0 and rq.out.strip():
+                anoms.append(dict(key='lost-state:same-targets:out-of-date-after-success', what='redo-ood lists %s after every invocation exited 0' % rq.out.split()))
+            left = [n for n in os.listdir(pj.top) if n.endswith('.redo.tmp')]
+            if left:
+                anoms.append(dict(key='lost-state:same-targets:tmp-left', what=str(left)))
+    finally:
+        pj.close()
+    r = dict(verdict='violated' if anoms else 'held', nontrivial=True, shape=common.shash(list(item)),
+             sample=dict(kind='same-targets', invocations=ninv, queries=nquery, change=change), obs=obs, sets={k: sorted(v) for k, v in sets.items()})
+    if anoms:
+        seen = set()
+        r['violations'] = [a for a in anoms if not (a['key'] in seen or seen.add(a['key']))]
+        r['replay'] = dict(kind='c16', item=list(item))
+    return r
+
+
+def dispatch(item):
+    if item[0] == 'same':
+        return same_target_case(tuple(item))
+    return case(tuple(item))
+
+
 RULE = ('rounds of n in {2,4,8,16} invocations released within a few milliseconds (half of the rounds: released in the same instant through a FIFO barrier; extra fresh-project rounds with busy-waiting starters) against one project: redo / redo -j3 / redo-ifchange on '
         'private sub-graphs (optionally sharing two targets) plus redo-ood / redo-targets / redo-sources / redo-log; on an existing '
         'project and on a project without .redo (first-creation race); with delay hooks inside start-up (between the existence test and '
         'connect, between the schema read and the run-id insert). All scripts succeed by construction, so every invocation must exit 0; '
         'afterwards integrity_check = ok, every target of a successful invocation has its Files row, its declared Deps edges and its file. '
-        'Every round is non-trivial; distinct = parameter tuple (incl. seed).')
+        'Same-target rounds: 2-5 invocations (redo-ifchange / redo / redo -j3, plus queries) all ask for one chain top -> mid -> checksummed st -> src after a change below the checksummed target (checksum kept, changed, or no change): they meet each other at the locks and on the out-of-band path; every one exits 0, afterwards the chain holds the new content, redo-ood lists nothing, no temporary output is left. Every round is non-trivial; distinct = parameter tuple (incl. seed).')
 ASSUME = ['only targets known to redo are queried with redo-log', 'script-attributable failures are impossible by construction']
 
 
@@ -145,10 +224,14 @@ def main(tier):
             for fresh in (False, True):
                 for shared in (False, True):
                     items.append((ninv, fresh, shared, rnd.choice([0, 2, 6]), rnd.choice(delays), rnd.randrange(10 ** 6)))
+    for rep in range(4 if quick else 40):
+        for ninv in (2, 3, 5):
+            for change in ('new-checksum', 'same-checksum', 'none'):
+                items.append(('same', ninv, change, rnd.choice([0, 2]), rnd.randrange(10 ** 6)))
     rnd.shuffle(items)
     deadline = time.time() + (80 if quick else 800)
     # rounds are themselves parallel: run a few at a time so that invocations really coincide
-    for r in common.pmap(case, items, procs=4, deadline=deadline):
+    for r in common.pmap(dispatch, items, procs=4, deadline=deadline):
         col.add(r)
     # rounds whose starters busy-wait for the go signal (tightest simultaneity): one round at a time, <= 12 starters
     spin = [(ninv, True, False, 12 - ninv, None, -1 - i) for i, ninv in enumerate([6, 8, 4, 6, 8, 6] * (4 if quick else 40))]
@@ -163,7 +246,7 @@ def replay(path):
     import json
     d = json.load(open(path))
     common.ensure_built()
-    r = case(tuple(d['replay']['item']))
+    r = dispatch(tuple(d['replay']['item']))
     print(r.get('verdict'), r.get('violations'))
     common.cleanup_scratch()
     if r.get('verdict') == 'violated':
